@@ -878,7 +878,7 @@ def rule_l(ctx: Ctx) -> None:
         if "sql" not in f.params:
             continue
         m = f.module
-        token_params = {p for p in f.params if "token" in p.lower()}
+        token_params = {p for p in f.params if "token" in p.lower()} | {x.id for x in walk_no_nested(f.node) if isinstance(x, ast.Name) and "token" in x.id.lower()}
         for c in walk_no_nested(f.node):
             if not (isinstance(c, ast.Call) and isinstance(c.func, ast.Attribute) and c.func.attr in ("parse", "parse_into", "_parse")):
                 continue
@@ -897,7 +897,7 @@ def rule_l(ctx: Ctx) -> None:
                 ctx.fail(m, c, where, c, f"`{norm(c, 90)}` hands the tokens to a parser entry point without the text `sql` they were scanned from: every ParseError it builds has an "
                                          f"empty snippet and highlight (its sibling calls pass the text)")
     ctx.count("token_handovers", n)
-    ctx.min_instances("token_handovers", n, 6)
+    ctx.min_instances("token_handovers", n, 5)
 
 
 RULES = [rule_a, rule_b, rule_c, rule_d, rule_e, rule_f, rule_g, rule_h, rule_i, rule_j, rule_k, rule_l]
